@@ -162,6 +162,9 @@ func (d *lockDom) Call(ip *Interp, fr *Frame, st *State, call *ast.CallExpr, c *
 		}
 		return []Out{{St: st.WithDom(s)}}, true
 	}
+	if fk, m := atomicOp(info, call); fk != "" {
+		d.op(fr, st, call, "atomic:"+m, fk)
+	}
 	switch {
 	case c.Key == kBroadcast || c.Key == kSignal:
 		d.op(fr, st, call, "broadcast", selField(info, c.Recv))
